@@ -5,7 +5,7 @@ import Driver.Util
   parameters (the ones the property needs), on the arrival list of the case.
   Line format (see /verif/harness/cmd/hx/qc.go):
     qc id=<n> m=<variant> x=<expected> qf=<thr|maj|sum>:<k> arr=<a>,… cfg=… skip=…
-    a ::= r<nid>:<val> | e<nid>:<code> | c
+    a ::= r<nid>:<val> | e<nid>:<code> | x<nid>:0 | c
 -/
 namespace GorumsV.Driver
 open GorumsV.ReplyLoop
@@ -34,7 +34,7 @@ def parseArrival (s : String) : Option (Arrival Int Nat) :=
       match n.toNat?, v.toInt? with
       | some n, some v =>
         if s.startsWith "r" then some (.reply n v)
-        else if s.startsWith "e" then some (.error n n)
+        else if s.startsWith "e" || s.startsWith "x" then some (.error n n)   -- x = the node's connection breaks while its request is pending
         else none
       | _, _ => none
     | _ => none
